@@ -105,18 +105,30 @@ def real_shard(seed, n, tier="quick"):
     phases = [Phase.generate] if tier == "quick" else [Phase.generate, Phase.shrink]
     task = st.one_of(st.tuples(st.just("echo")), st.tuples(st.just("nap"), st.sampled_from([0.02, 0.2])),
                      st.tuples(st.just("big"), st.sampled_from([1000, 200000])))
+    # a worker with helper subprocesses; with reap_nth, one of them exits on its own (and is reaped) between the listing of that
+    # worker's process tree and its kill, when the broken pool kills its remaining workers
+    tree_task = st.tuples(st.just("tree"), st.sampled_from([2, 3]))
 
     @hypothesis.seed(seed)
     @settings(max_examples=n, database=None, deadline=None, suppress_health_check=list(HealthCheck), report_multiple_bugs=False,
               phases=phases)
     @given(st.integers(1, 3), st.sampled_from([None, None, 0.3, 20]), st.lists(task, min_size=1, max_size=8),
            st.sampled_from(KILL_POINTS), st.integers(1, 6), st.sampled_from(["kill:9", "kill:11", "kill:15", "kill:37", "kill:6", "exit:3", "exit:0"]),
-           st.sampled_from([0, 0, 0.02]))
-    def t(workers, timeout, tasks, point, nth, action, gap):
+           st.sampled_from([0, 0, 0.02]), st.one_of(st.none(), st.none(), tree_task), st.sampled_from([0, 1, 1, 2, 2, 3]))
+    def t(workers, timeout, tasks, point, nth, action, gap, tree, reap_nth):
         if point in ("worker.before_announce", "worker.announced") and timeout is None:
             timeout = 0.3
         prog = {"workers": workers, "timeout": timeout, "tasks": [list(x) for x in tasks], "gap": gap,
                 "idle": 1.2 if timeout == 0.3 else 0, "plan": [{"point": point, "role": "worker", "nth": nth, "action": action}]}
+        if tree is not None:
+            # the helpers' worker takes the first task; a later task's worker is the one that dies
+            prog["workers"] = max(2, workers)
+            prog["tasks"] = [list(tree)] + prog["tasks"]
+            prog["gap"] = 0.05
+            if point in ("worker.got_item", "worker.before_send", "worker.sent"):
+                prog["plan"][0]["nth"] = nth = 2 + nth % 2
+            if reap_nth:
+                prog["plan"].append({"point": "kill_tree.listed", "role": "parent", "nth": reap_nth, "action": "reap_descendant"})
         d_env = {"LOKY_VERIF_PLAN": json.dumps(prog["plan"])}
         res, p = runner.run_driver("drv_fault.py", prog, base, timeout=240, env_extra=dict(d_env, LOKY_VERIF_DIR="."), hooks=True)
         res = runner.finish(res, p)
@@ -134,6 +146,10 @@ def real_shard(seed, n, tier="quick"):
             acc.count("real_fault_cases")
             acc.count("real_fault_fired" if fired else "real_fault_not_reached")
             acc.count("real_point:" + point)
+            if tree is not None:
+                acc.count("real_worker_with_helpers")
+                if len(prog["plan"]) > 1 and main and main[0]["hits"].get("kill_tree.listed.parent"):
+                    acc.count("real_tree_listed_with_reap_plan")
         if v:
             fails.append({"kind": v[0][0], "detail": v[0][1], "case": case, "where": "real:" + point})
             raise AssertionError(v[0][0])
